@@ -381,7 +381,8 @@ def judge_values(res, cls, label, method, evalf, J0, V, D, A, Fv, Fd, evalc, rho
     if not (err1 <= tol1).all():
         j = int(np.argmax(~(err1 <= tol1)))
         sig = f"dvalues-constant-direction:{label}:{method}"
-        if rho < NEAR_COLLINEAR:
+        if rho < NEAR_COLLINEAR or collinear:
+            # exactly equal table slopes become nearly equal slopes of interpolated sub-values on the upper levels
             sig = 'F24-akima-table-gradient-noise-near-collinear:constant-direction'
         res.fail(sig, f"{label} akima: output {j}: sum_j d out/d value_j = {rows[j]!r} but (interp(V+c)-interp(V))/c = "
                       f"{q1[j]!r} for c = {c!r} (smallest relative slope difference of the table {rho:.3g}; "
